@@ -21,7 +21,8 @@ RULE = ("render: formats %[-+ 0#]*[w][.p]{d,f} (all 32 flag subsets x widths {-,
 ASSUMPTIONS = ["tolerance = the format's resolution + a few ulp, so rounding and truncating renderers both pass",
                "non-canonical fields such as 1:60 are accepted; exponent notation and non-finite values are not demanded",
                "a leading '+' is not demanded of the parser (only what the library itself renders with the + flag)"]
-REQUIRED_EVENTS = ["renderings", "validator_checks", "parse_checks", "grid_points", "device_layer_renderings", "device_layer_histories"]
+QUICK_SHARDS = 2
+REQUIRED_EVENTS = ["renderings", "validator_checks", "parse_checks", "grid_points", "device_layer_renderings", "device_layer_histories", "client_number_texts_stored"]
 
 SEXA = [3, 5, 6, 8, 9]
 
@@ -331,7 +332,18 @@ def device_layer(ctx, i, steps):
         if store == "assign":
             elem[k].value = v
         elif store == "client-write":
-            router.process_message(M.NewNumberVector(device="DEV", name="NUM", children=(one_parts.OneNumber(name=f"N{k}", value=repr(float(v))),)), sender=rec)
+            # any INDI number notation may be sent to any format; the element must then hold the value the text denotes
+            text = rng.choice([repr(float(v)), repr(float(v)), "%.4f" % v, "%d:%02d:%02d" % (abs(int(v)), rng.randrange(60), rng.randrange(60)),
+                               "-0.5", "2.7", "1e-1", "-%d %02d" % (abs(int(v)), rng.randrange(60)), "%d;%02d.5" % (abs(int(v)), rng.randrange(60))])
+            router.process_message(M.NewNumberVector(device="DEV", name="NUM", children=(one_parts.OneNumber(name=f"N{k}", value=text),)), sender=rec)
+            denoted = R.parse(text)
+            stored = elem[k]._value
+            ctx.count("client_number_texts_stored")
+            if stored is None or isinstance(stored, bool) or not abs(stored - denoted) <= 1e-9 * max(1.0, abs(denoted)):
+                ctx.violate(f"element-stores-other-value-than-the-text-denotes:{fmt_class(fmts[k])}",
+                            f"element N{k} (format {fmts[k]!r}) was sent {text!r} (= {denoted!r}) and holds {stored!r}",
+                            {"mode": "device", "i": i, "steps": steps}, {"history": history[-8:]})
+                return
         elif store == "reset_value":
             elem[k].reset_value(v)
         elif store == "read-handler-refresh":
